@@ -22,9 +22,9 @@ casts indices to `u32`; the model does not).
 * `bdd_to_dot_string_eq_model` / `Bdd_to_dot_string_eq_model` — `RelK` with `Dot.toDotString`, all inputs;
 * chained with `Props/C20.lean`: `to_dot_string_translated_eval`.
 
-FINDING (model vs code, invalid Bdds only): `Dot.writeDotIO` panics whenever the export of `A` panics, whatever the
-sink does; the code (and its translation) returns the `Err` of a failing sink if the failure comes before the node
-whose variable has no name (`discrepancy_example` below).
+FOUND AND REPAIRED (model vs code, invalid Bdds only): the first hand model `Dot.writeDotIO` panicked whenever the export
+of `A` panics, whatever the sink does; the code (and its translation) returns the `Err` of a failing sink if the
+failure comes before the node whose variable has no name. The model now follows the code (`discrepancy_example`).
 -/
 namespace B.AlgoEq3Dot
 open B B.Gen B.AlgoEqUtil B.AlgoEq2Bytes B.AlgoEq2Ren
@@ -277,15 +277,15 @@ example : ∃ w', Algo3.write_bdd_as_dot { script := [.give 7, .interrupted, .gi
 /-- an INVALID Bdd: one variable, but node 2 decides on variable 5 -/
 def badA : Arr := #[⟨1, 0, 0⟩, ⟨1, 1, 1⟩, ⟨5, 0, 1⟩]
 
-/-- **model vs code**: the sink fails at its first `write`. The hand model `Dot.writeDotIO` (it renders the whole text
-    first) panics; the translated code — like the Rust code — returns the `Err`. Only invalid Bdds are affected
-    (a node variable without a name); for those the theorems above are stated about the CODE's behaviour. -/
+/-- the sink fails at its first `write` on an INVALID Bdd: the translated code — like the Rust code — returns the `Err`,
+    and so does the hand model `Dot.writeDotIO` (an earlier version of the model rendered the whole text first and
+    panicked here; this equivalence work found it and the model was made exact). -/
 theorem discrepancy_example :
-    (∃ m, Dot.writeDotIO badA ["x"] false [.fail] = .panic m) ∧
+    Dot.writeDotIO badA ["x"] false [.fail] = .ok (false, []) ∧
     Algo3.write_bdd_as_dot { script := [.fail] } badA #["x"] false =
       .ok (.error ⟨.other⟩, { script := [], sp := 1 }) := by
   constructor
-  · exact ⟨"index out of bounds: var_names[var]", rfl⟩
+  · exact Dot.writeDotIO_fail_first _ _ _ _ (by decide) (by decide)
   · exact write_bdd_as_dot_fail_first_bad { script := [.fail] } [] badA #["x"] false rfl (by decide) (by decide)
       (by decide)
 
